@@ -108,6 +108,13 @@ def build_externs(g, repo):
         env = dict(os.environ, CARGO_NET_OFFLINE='true')
         env.pop('RUSTUP_TOOLCHAIN', None)
         deps = os.path.join(tgt, 'debug', 'deps')
+        # the package's own `env!("CARGO_PKG_VERSION")` (cargo would set it): taken from its Cargo.toml
+        try:
+            m = re.search(r'^version\s*=\s*"([^"]*)"', open(os.path.join(repo, pkg, 'Cargo.toml')).read(), re.M)
+            if m:
+                os.environ['CARGO_PKG_VERSION'] = m.group(1)
+        except OSError:
+            pass
         for c in crates:
             p = subprocess.run(['cargo', '+' + VERUS_TOOLCHAIN, 'build', '--offline', '-q', '-p', c, '--target-dir', tgt],
                                cwd=os.path.join(repo, pkg), capture_output=True, text=True, env=env)
